@@ -32,6 +32,7 @@ U(n) ==
     [] n = "nd" -> UnitRec(n, "1", R(1), RZero)
     [] n = "nq" -> UnitRec(n, "1", <<1,4>>, RZero)
     [] n = "pc" -> UnitRec(n, "1", <<1,100>>, RZero)
+    [] n = "lr" -> UnitRec(n, "1", R(1024), RZero)        \* the ratio unit lb/la: dimensionless by cancellation, scale 1024
     [] n = "rad" -> UnitRec(n, "A", R(1), RZero)
     [] n = "K" -> UnitRec(n, "Th", R(1), RZero)
     [] n = "R" -> UnitRec(n, "Th", <<5,9>>, RZero)
@@ -42,7 +43,7 @@ U(n) ==
     [] n = "C" -> UnitRec(n, "Qm", R(1), RZero)
     [] n = "statC" -> UnitRec(n, "Qc", R(1), RZero)
     [] OTHER -> TableUnits[n]
-AllUnitNames == {"la","lb","ta","ma","nd","nq","pc","rad","K","R","degC","degF","delta_degC","delta_degF","C","statC"}
+AllUnitNames == {"la","lb","ta","ma","nd","nq","pc","lr","rad","K","R","degC","degF","delta_degC","delta_degF","C","statC"}
 Dimless == U("nd")
 UEq(a,b) == a.dim = b.dim /\ a.scale = b.scale /\ a.off = b.off   \* Unit.__eq__ (isclose is exact on this alphabet)
 StartsDelta(n) == n \in {"delta_degC","delta_degF"}
@@ -107,12 +108,15 @@ PDim(k,n) == IF k \in MixedQ THEN "mixed" ELSE IF k \in UnytKinds \cup ListQ \cu
 \* the second dimension of a mixed sequence (gamma builds it the same way)
 OtherUnit(u) == U(IF u.dim = "L" THEN "ta" ELSE "la")
 \* what an operand consists of, for the property: a set of element classes [dim, bz (an exactly-zero bare entry), b (bare)]
-El(d, bz, b) == [dim |-> d, bz |-> bz, b |-> b]
+\* nul: a unit-carrying entry whose unit IS the null unit (no dimension, scale one, no offset) - the only unit-carrying
+\* value that __setitem__ may store like a bare number (test_setitem); percent, a ratio lb/la, nq are NOT null
+El(d, bz, b) == [dim |-> d, bz |-> bz, b |-> b, nul |-> FALSE]
+ElU(u) == [dim |-> u.dim, bz |-> FALSE, b |-> FALSE, nul |-> (u.dim = "1" /\ u.scale = ROne /\ RIsZero(u.off))]
 Elems(k,n) ==
-  CASE k \in MixedQ -> {El(U(n).dim, FALSE, FALSE), El(OtherUnit(U(n)).dim, FALSE, FALSE)}
-    [] k \in UnytKinds \cup ListQ \cup {"u"} -> {El(U(n).dim, FALSE, FALSE)}
-    [] k = "lzq" -> {El("1", TRUE, TRUE), El(U(n).dim, FALSE, FALSE)}
-    [] k \in {"lbq","lqb"} -> {El("1", FALSE, TRUE), El(U(n).dim, FALSE, FALSE)}
+  CASE k \in MixedQ -> {ElU(U(n)), ElU(OtherUnit(U(n)))}
+    [] k \in UnytKinds \cup ListQ \cup {"u"} -> {ElU(U(n))}
+    [] k = "lzq" -> {El("1", TRUE, TRUE), ElU(U(n))}
+    [] k \in {"lbq","lqb"} -> {El("1", FALSE, TRUE), ElU(U(n))}
     [] k \in BareZero -> {El("1", TRUE, TRUE)}
     [] OTHER -> {El("1", FALSE, TRUE)}
 
@@ -289,6 +293,22 @@ ArrOps == {"einsum"} \cup ListMerge \cup PairCons \cup V2Fns \cup V2InPlace \cup
 BoolResult == {"isin","isclose","allclose"}
 BareResult == {"searchsorted","interp"}
 
+\* call forms of the array functions (the property is about the operation, never about the spelling of the call):
+\*   call     every operand positional
+\*   kw       the value slot (second operand; for the stacking functions the one sequence) by NumPy's keyword name
+\*   kwall    every operand by keyword name
+\*   out kwout        the same with an out= buffer
+\*   lo hi kwlo kwhi  one-sided bounds (the other bound None / left out)                       [two-bound operations]
+\*   alias aliaslo aliashi aliasout   the bounds by NumPy's newer alias keyword names (numpy >= 2.1: min= / max=)
+\*   method methodkw methodlo methodhi  the method spelling a.clip(lo, hi) / a.clip(min=, max=) / a.clip(lo) / a.clip(max=hi): it
+\*            reaches unyt through __array_ufunc__ (the three-input ufunc clip; one bound: maximum / minimum)
+ArrFormsAll == {"call","kw","kwall","out","kwout","lo","hi","kwlo","kwhi","alias","aliaslo","aliashi","aliasout",
+                "method","methodkw","methodlo","methodhi"}
+TwoBound == {"clip"}
+\* this tree: clip_impl hands the positional pair (a_min, a_max) to the validator, which iterates over a bound that was
+\* left out (None / <no value>) -> TypeError, whatever the units are; min= / max= are unknown to it
+BoundTypeErr == {"lo","hi","kwlo","kwhi","alias","aliaslo","aliashi","aliasout"}
+
 ArrOutcome(op, o0, o1) ==
   LET u0 == o0.unit u1 == o1.unit IN
   CASE op \in ListMerge \cup PairCons ->
@@ -336,7 +356,12 @@ ConvOutcome(entry, o0, new) ==
 
 OutcomeOf(c, o0, o1) ==
   CASE c.fam = "ufunc" -> UfOutcome(c.op, c.form, o0, o1)
-    [] c.fam = "arrfn" -> ArrOutcome(c.op, o0, o1)
+    [] c.fam = "arrfn" -> IF c.op \in TwoBound /\ c.form \in BoundTypeErr THEN Raise("TypeError")
+                          \* the method spelling: a ufunc with three inputs is not supported; with one bound it is maximum / minimum
+                          ELSE IF c.op \in TwoBound /\ c.form \in {"method","methodkw"} THEN Raise("RuntimeError")
+                          ELSE IF c.op \in TwoBound /\ c.form = "methodlo" THEN UfOutcome("maximum", "call", o0, o1)
+                          ELSE IF c.op \in TwoBound /\ c.form = "methodhi" THEN UfOutcome("minimum", "call", o0, o1)
+                          ELSE ArrOutcome(c.op, o0, o1)
     [] c.fam = "setitem" -> SetOutcome(o0, o1)
     [] c.fam = "conv" -> ConvOutcome(c.op, o0, U(c.n1))
     [] c.fam = "unitop" -> Raise("InvalidUnitOperation")       \* Unit.__add__/__sub__ always raise
@@ -390,11 +415,13 @@ Demanded(c) ==
             /\ \/ ArrClass(c.op) = "merge" /\ (Internal(c) \/ Cross(c, FALSE))
                \/ ArrClass(c.op) = "compare" /\ (Internal(c) \/ Cross(c, TRUE))
     [] c.fam = "setitem" ->
-            \* not demanded: bare values (also inside a sequence) and dimensionless quantities are stored as given
-            \* (test_setitem asserts both); a dimensionless target is left to the conversion's own rules
+            \* not demanded: bare values (also inside a sequence) and quantities in the NULL unit (no dimension AND scale
+            \* one) are stored as given (test_setitem asserts both).  A scaled dimensionless value (percent, a ratio lb/la,
+            \* nq) is neither a bare number nor of the target's dimension: the statement demands the refusal; so does a
+            \* dimensional value offered to a dimensionless target.
             /\ c.k1 \in UnytKinds \cup ListQ \cup HetList /\ ~EMPair(U(c.n0), U(c.n1))
             /\ \/ c.k1 \in MixedQ
-               \/ \E e1 \in Elems(c.k1,c.n1) : ~e1.b /\ e1.dim # U(c.n0).dim /\ e1.dim # "1" /\ U(c.n0).dim # "1"
+               \/ \E e1 \in Elems(c.k1,c.n1) : ~e1.b /\ ~e1.nul /\ e1.dim # U(c.n0).dim
     [] c.fam = "conv" -> DimsDiffer(c) /\ ~EMPair(U(c.n0), U(c.n1))        \* the CGS<->SI electromagnetic pairs are documented conversions
     [] c.fam = "unitop" -> DimsDiffer(c)
 \* == / != between different dimensions answer all-False / all-True (or refuse); array_equal/array_equiv answer False
